@@ -185,7 +185,9 @@ Proof. repeat split; try (vm_compute; reflexivity); eexists; vm_compute; reflexi
    on the command text:
      text_ok cmd c0   no line break in cmd, and no suffix of cmd ++ [c0] is a proper prefix of a multi-character pattern of the
                       readers (LocalityP.PATS: "++" "--" "/*" "//" "*/" "0x" "0o" "Add" "2Add" ".onTime" ".T" ".s(" "End" "END"
-                      "##" "# " "#-" "///" "/**") - such a test would look beyond the end of the text;
+                      "##" "# " "#-" "///" "/**", and ".Random" ".onNote" ".N" ".onCycle" ".C": `l` gives a dot and the word after
+                      it back when the word is no reservation, so its test of these words looks ahead) - such a test would look
+                      beyond the end of the text;
      sep_ok c0 t      if c0 is a line break, no '^' follows it after blanks / line breaks / comments (the documented continuation
                       of a length);
    and the PREMISE of every statement is itself a computation on the small text cmd ++ [c0]: the reader, run on the command
